@@ -753,3 +753,57 @@ func scanFieldWriters(P *Program, sp ScanSpec) []*OblResult {
 }
 
 func init() { scanKinds["field_writers"] = scanFieldWriters }
+
+// global_users: the package variable Args[name] of package Args[pkg] (typically a store prefix or key)
+// is mentioned only by the functions in List -- so the records under it have no other reader or writer.
+func scanGlobalUsers(P *Program, sp ScanSpec) []*OblResult {
+	pkg := P.ssaPkg(sp.Args["pkg"])
+	if pkg == nil {
+		return []*OblResult{scanResult(sp.Name, "F8", false, "package not loaded: "+sp.Args["pkg"])}
+	}
+	g, ok := pkg.Members[sp.Args["name"]].(*ssa.Global)
+	if !ok {
+		return []*OblResult{scanResult(sp.Name, "F8", false, "no such package variable: "+sp.Args["name"])}
+	}
+	found := map[string]bool{}
+	for fn := range ssautil.AllFunctions(P.SSA) {
+		if fn.Synthetic != "" {
+			continue
+		}
+		for _, b := range fn.Blocks {
+			for _, in := range b.Instrs {
+				for _, op := range in.Operands(nil) {
+					if *op == ssa.Value(g) {
+						found[CanonName(fn)] = true
+					}
+				}
+			}
+		}
+	}
+	want := map[string]bool{}
+	for _, w := range sp.List {
+		want[w] = true
+	}
+	var extra, missing []string
+	for f := range found {
+		if !want[f] && !strings.Contains(f, "_test") && !strings.HasSuffix(f, ".init") {
+			extra = append(extra, f)
+		}
+	}
+	for w := range want {
+		if !found[w] {
+			missing = append(missing, w)
+		}
+	}
+	sort.Strings(extra)
+	sort.Strings(missing)
+	if len(extra) > 0 {
+		return []*OblResult{scanResult(sp.Name, "F8", false, fmt.Sprintf("%s is also used in %v (census lists %v)", sp.Args["name"], extra, sp.List))}
+	}
+	if len(missing) > 0 {
+		return []*OblResult{scanResult(sp.Name, "F8", false, fmt.Sprintf("%s is no longer used in %v", sp.Args["name"], missing))}
+	}
+	return []*OblResult{scanResult(sp.Name, "F8", true, fmt.Sprintf("users of %s: %v", sp.Args["name"], sp.List))}
+}
+
+func init() { scanKinds["global_users"] = scanGlobalUsers }
